@@ -224,6 +224,7 @@ bus_dispatch_matches (BusTransaction *transaction,
 #include <stdlib.h>
 void bus_verif_registry_state (BusRegistry *registry, FILE *out);
 void bus_verif_connections_state (BusConnections *connections, FILE *out);
+void _dbus_verif_set_second_failure (int distance);
 
 static int verif_armed = 0;
 static int verif_k = 0;
@@ -238,6 +239,8 @@ bus_verif_dispatch_begin (DBusConnection *connection,
   char who[128];
   unsigned serial = 0;
   int k = 0;
+  int n_failures = 1;
+  int second = -1;
   const char *name;
 
   if (ctl == NULL)
@@ -246,7 +249,7 @@ bus_verif_dispatch_begin (DBusConnection *connection,
   if (f == NULL)
     return;
   who[0] = 0;
-  if (fscanf (f, "%d %127s %u", &k, who, &serial) == 3)
+  if (fscanf (f, "%d %127s %u %d %d", &k, who, &serial, &n_failures, &second) >= 3)
     {
       name = bus_connection_is_active (connection) ? bus_connection_get_name (connection) : NULL;
       if (serial == dbus_message_get_serial (message) &&
@@ -260,6 +263,8 @@ bus_verif_dispatch_begin (DBusConnection *connection,
   if (verif_armed)
     {
       remove (ctl);
+      _dbus_set_fail_alloc_failures (n_failures > 0 ? n_failures : 1);
+      _dbus_verif_set_second_failure (second);
       _dbus_set_fail_alloc_counter (k);
     }
 }
@@ -274,6 +279,8 @@ bus_verif_dispatch_end (BusContext *context)
       int left = _dbus_get_fail_alloc_counter ();
       const char *ctl = _dbus_getenv ("DBUS_VERIF_CTL");
       _dbus_set_fail_alloc_counter (_DBUS_INT_MAX);
+      _dbus_set_fail_alloc_failures (1);
+      _dbus_verif_set_second_failure (-1);
       verif_armed = 0;
       if (ctl != NULL)
         {
